@@ -131,6 +131,12 @@ Definition run_over (c : ascii) (p : lpat) : option (ascii -> bool) :=
   | LPlus q => match single_char q with Some pr => if pr c then Some pr else None | None => None end
   | _ => None
   end.
+(* a greedy rule of the form  literal  (single character accepting c)*  - e.g. a line comment and the blank *)
+Definition tail_run (c : ascii) (p : lpat) : option (string * (ascii -> bool)) :=
+  match p with
+  | LSeq [LLit l; LStar q] => match single_char q with Some pr => if pr c && negb (has_char c l) then Some (l, pr) else None | None => None end
+  | _ => None
+  end.
 Definition lazy_head (p : lpat) : option ascii :=
   match p with LSeq (LLit (String h EmptyString) :: _) => Some h | _ => None end.
 
@@ -140,7 +146,8 @@ Definition rule_ok (c : ascii) (rules : list rule) (r : rule) : bool :=
     | Some h => forallb (fun r' => String.eqb (r_name r') (r_name r) || nomatch_first h (r_pat r')) rules
     | None => false
     end
-  else avoids c (r_pat r) || match run_over c (r_pat r) with Some _ => true | None => false end.
+  else avoids c (r_pat r) || match run_over c (r_pat r) with Some _ => true | None => false end
+       || match tail_run c (r_pat r) with Some _ => true | None => false end.
 
 Fixpoint nodup_names (l : list string) : bool :=
   match l with [] => true | x :: r => negb (existsb (String.eqb x) r) && nodup_names r end.
@@ -177,6 +184,18 @@ Proof.
   rewrite (H nm0 r0) by now left. rewrite IH by (intros nm r Hi; apply (H nm); now right). reflexivity.
 Qed.
 
+Lemma tail_run_inv c p l pr : tail_run c p = Some (l, pr) ->
+  exists q, p = LSeq [LLit l; LStar q] /\ single_char q = Some pr /\ pr c = true /\ has_char c l = false.
+Proof.
+  unfold tail_run. intros H.
+  destruct p as [| | |ps| | | |]; try discriminate.
+  destruct ps as [|p1 ps]; [discriminate|]. destruct p1 as [l0| | | | | | |]; try discriminate.
+  destruct ps as [|p2 ps]; [discriminate|]. destruct p2 as [| | | | |q| |]; try discriminate.
+  destruct ps as [|? ?]; [|discriminate].
+  destruct (single_char q) as [pr0|] eqn:Es; [|discriminate]. destruct (pr0 c && negb (has_char c l0)) eqn:Ec; [|discriminate].
+  injection H as <- <-. apply andb_true_iff in Ec as [Ec Hl]. apply negb_true_iff in Hl. now exists q.
+Qed.
+
 (* ---------------- one rule, two continuations ---------------- *)
 Section Step.
   Variable c : ascii.
@@ -207,6 +226,43 @@ Section Step.
     destruct (pr0 c) eqn:Ec; [|discriminate]. intros [= <-]. cbn [mlens]. rewrite Es, !max_seq1. unfold s, s'. rewrite !run_len_app.
     intros H. destruct (Nat.eqb (run_len pr0 x) (slen x)) eqn:E; [|reflexivity].
     exfalso. cbn [run_len] in H. rewrite Ec in H. lia.
+  Qed.
+
+  (* membership in the match lengths of  literal (single)*  *)
+  Lemma tail_lens l q pr t n : single_char q = Some pr ->
+    (In n (mlens (LSeq [LLit l; LStar q]) t) <-> String.prefix l t = true /\ slen l <= n <= slen l + run_len pr (sdrop (slen l) t)).
+  Proof.
+    intros Es. rewrite mlens_seq, in_seq_lens. split.
+    - intros (n1 & n2 & -> & H1 & H2). cbn [mlens] in H1. destruct (String.prefix l t) eqn:Ep; [|contradiction]. destruct H1 as [<-|[]].
+      apply in_seq_lens in H2 as (a & b0 & -> & Ha & Hb). cbn [mlens] in Ha. rewrite Es in Ha. apply in_seq0 in Ha. destruct Hb as [<-|[]]. split; [reflexivity | lia].
+    - intros (Hp & Hn). exists (slen l), (n - slen l). split; [lia|]. split; [cbn [mlens]; rewrite Hp; now left|].
+      apply in_seq_lens. exists (n - slen l), 0. split; [lia|]. split; [cbn [mlens]; rewrite Es; apply in_seq0; lia | now left].
+  Qed.
+
+  Lemma tail_same p l pr : x <> "" -> tail_run c p = Some (l, pr) -> max_list (mlens p s) <= slen x -> max_list (mlens p s') = max_list (mlens p s).
+  Proof.
+    intros Hx Ht HM. destruct (tail_run_inv c p l pr Ht) as (q & -> & Es & Ec & Hl). clear Ht. rename l into l0. rename pr into pr0.
+    (* the literal lies inside x: it does not contain c, and the character at |x| is c *)
+    assert (Hlen : String.prefix l0 s = true \/ String.prefix l0 s' = true -> slen l0 <= slen x).
+    { intros Hp. destruct (Nat.le_gt_cases (slen l0) (slen x)) as [|Hgt]; [assumption|]. exfalso.
+      assert (Hc : has_char c l0 = true); [|congruence].
+      destruct Hp as [Hp|Hp]; apply prefix_stake in Hp; rewrite <- Hp; apply (stake_has_char c _ (slen x)); try exact Hgt; unfold s, s';
+        [exists b | exists b']; rewrite sdrop_app by lia; (replace (sdrop (slen x) x) with "" by (clear; induction x; [reflexivity | assumption])); reflexivity. }
+    apply max_list_ext. intros n. rewrite !(tail_lens l0 q pr0 _ n Es).
+    (* the run after the literal ends inside x (otherwise it would continue over c and exceed |x|) *)
+    assert (Hrun : forall t0, String.prefix l0 s = true -> slen l0 <= slen x ->
+                              run_len pr0 (sdrop (slen l0) x ++ String c t0) = run_len pr0 (sdrop (slen l0) x)).
+    { intros t0 Hp Hle. rewrite run_len_app. destruct (Nat.eqb (run_len pr0 (sdrop (slen l0) x)) (slen (sdrop (slen l0) x))) eqn:E; [|reflexivity]. exfalso.
+      apply Nat.eqb_eq in E. assert (Hin : In (slen l0 + run_len pr0 (sdrop (slen l0) s)) (mlens (LSeq [LLit l0; LStar q]) s)) by (apply (tail_lens l0 q pr0 s _ Es); split; [exact Hp | lia]).
+      apply max_list_ge in Hin. unfold s in Hin at 1. rewrite sdrop_app in Hin by exact Hle. rewrite run_len_app, E, Nat.eqb_refl in Hin. cbn [run_len] in Hin. rewrite Ec in Hin.
+      rewrite sdrop_len in Hin. lia. }
+    assert (Hpre : String.prefix l0 s' = String.prefix l0 s).
+    { destruct (String.prefix l0 s) eqn:E1.
+      - pose proof (Hlen (or_introl eq_refl)) as Hle. unfold s'. rewrite prefix_app by exact Hle. unfold s in E1. now rewrite prefix_app in E1 by exact Hle.
+      - destruct (String.prefix l0 s') eqn:E2; [|reflexivity]. pose proof (Hlen (or_intror eq_refl)) as Hle. unfold s' in E2. rewrite prefix_app in E2 by exact Hle.
+        unfold s in E1. rewrite prefix_app in E1 by exact Hle. congruence. }
+    rewrite Hpre. destruct (String.prefix l0 s) eqn:Ep; [|split; intros [? _]; discriminate]. pose proof (Hlen (or_introl eq_refl)) as Hle.
+    unfold s, s'. rewrite !sdrop_app by exact Hle. rewrite (Hrun b eq_refl Hle), (Hrun b' eq_refl Hle). reflexivity.
   Qed.
 
   Lemma lazy_same p m : min_pos (mlens p s) = m -> 0 < m -> m <= slen x -> min_pos (mlens p s') = m.
@@ -264,9 +320,10 @@ Proof.
       change (String h (x' ++ String c b)) with ((String h x') ++ String c b)%string in Hwl |- *.
       rewrite Hwl. apply (lazy_same c (String h x') b b' p n); [exact Hwl | exact Hpos | exact Hn].
     + now rewrite !(lazy_head_nomatch p h a _ Eh Hne).
-  - apply orb_true_iff in Hr as [Ha|Hrun].
+  - apply orb_true_iff in Hr as [Hr|Htail]; [apply orb_true_iff in Hr as [Ha|Hrun]|].
     + now apply (greedy_avoid_same c x b b' p).
     + destruct (run_over c p) as [pr|] eqn:Er; [|discriminate]. apply (run_same c x b b' p pr Er). lia.
+    + destruct (tail_run c p) as [[l pr]|] eqn:Et; [|discriminate]. apply (tail_same c x b b' p l pr Hx Et). lia.
 Qed.
 
 (* ---------------- the lexer ---------------- *)
